@@ -46,6 +46,48 @@ def new_run():
 # --------------------------------------------------------------------------
 # drawing
 # --------------------------------------------------------------------------
+class CaseTimeLimit(BaseException):
+    """raised by SIGALRM inside a hypothesis run that takes too long (rejection
+    sampling through fallback filters can take minutes); the case is then
+    counted as not decided"""
+
+
+TIME_LIMIT = {"quick": 4.0, "thorough": 10.0}
+
+
+class time_limit:
+    def __init__(self, seconds):
+        self.seconds = seconds
+
+    def __enter__(self):
+        import signal
+        import threading
+        self.active = (self.seconds and hasattr(signal, "setitimer")
+                       and threading.current_thread() is threading.main_thread())
+        if self.active:
+            def _raise(signum, frame):
+                raise CaseTimeLimit(f"case exceeded {self.seconds}s")
+            self.old = signal.signal(signal.SIGALRM, _raise)
+            signal.setitimer(signal.ITIMER_REAL, self.seconds)
+        return self
+
+    def __exit__(self, *exc):
+        import signal
+        if self.active:
+            signal.setitimer(signal.ITIMER_REAL, 0)
+            signal.signal(signal.SIGALRM, self.old)
+        return False
+
+
+def prewarm():
+    """register the pandas backends (and with them the builtin checks'
+    strategies) the way any earlier validate() call of a session would; the
+    cold path is exercised separately, in fresh interpreters"""
+    import pandas as pd
+    import pandera as pa
+    pa.SeriesSchema(int).validate(pd.Series([1]))
+
+
 def _settings(n):
     import hypothesis
     from hypothesis import HealthCheck
@@ -180,47 +222,249 @@ def show(d):
 # --------------------------------------------------------------------------
 # mechanism classifier (witness -> stable key of the defect's call site)
 # --------------------------------------------------------------------------
-def _field_of(case, fl):
-    """the field spec a failure belongs to + where it lives"""
-    name, st = fl["schema_name"], fl["schema_type"]
-    pools = []
-    if case["kind"] in ("series", "column", "index"):
-        pools.append(("field", case["fields"]))
-    elif case["kind"] == "multiindex":
-        pools.append(("level", case["fields"]))
-    else:
-        pools.append(("column", case["fields"]))
+_NAME_IN_MSG = re.compile(r"(?:series|Column) '(.*?)'")
+
+
+def locate(case, fl):
+    """(where, field spec, level position) the failure belongs to.
+    where: field | column | index | level | None"""
+    st, name = fl["schema_type"], fl["schema_name"]
+    kind = case["kind"]
     ix = case.get("index")
-    if ix:
-        pools.append(("index", ix["fields"]))
+    if st == "MultiIndex":
+        fs = case["fields"] if kind == "multiindex" else (ix["fields"] if ix and ix["multi"] else [])
+        m = _NAME_IN_MSG.search(fl["message"] or "")
+        if m:
+            for i, f in enumerate(fs):
+                if str(f["name"] if f["name"] is not None else i) == m.group(1):
+                    return "level", f, i
+        return "level", None, None
     if st == "Index":
-        order = [p for p in pools if p[0] in ("index", "level", "field")]
-    elif st in ("Column",):
-        order = [p for p in pools if p[0] in ("column", "field")]
-    elif st == "SeriesSchema":
-        order = [p for p in pools if p[0] == "field"]
-    else:
-        order = []
-    for where, fs in order:
-        for f in fs:
-            if f["name"] == name:
-                return where, f
-        for f in fs:                    # regex columns are renamed to the match
-            if f.get("regex") and name is not None and re.fullmatch(f["name"], str(name)):
-                return where, f
-        if len(fs) == 1 and (name is None or fs[0]["name"] is None):
-            return where, fs[0]
-    return None, None
+        if kind == "index":
+            return "field", case["fields"][0], None
+        if ix and not ix["multi"]:
+            return "index", ix["fields"][0], None
+        return None, None, None
+    if st == "SeriesSchema" and kind == "series":
+        return "field", case["fields"][0], None
+    if st == "Column":
+        if kind == "column":
+            return "field", case["fields"][0], None
+        if kind == "frame":
+            for f in case["fields"]:
+                if not f["regex"] and f["name"] == name:
+                    return "column", f, None
+            for f in case["fields"]:
+                if f["regex"] and name is not None and re.fullmatch(f["name"], str(name)):
+                    return "column", f, None
+    if st == "DataFrameSchema" and kind == "frame":
+        return "frame", None, None
+    return None, None, None
+
+
+def field_data(case, where, f, pos, fl, d):
+    """the values of the field in the draw, as a pandas Series (or None)"""
+    import pandas as pd
+    try:
+        if where == "field":
+            if case["kind"] == "series":
+                return d
+            if case["kind"] == "column":
+                return d.iloc[:, 0]
+            return d.to_series().reset_index(drop=True)
+        if where == "column":
+            return d[fl["schema_name"]]
+        if where == "index":
+            return d.index.to_series().reset_index(drop=True)
+        if where == "level":
+            mi = d if isinstance(d, pd.MultiIndex) else d.index
+            return mi.get_level_values(pos).to_series().reset_index(drop=True)
+    except Exception:                   # noqa: BLE001
+        return None
+    return None
 
 
 def _is_special(s):
     return isinstance(s, str) and re.escape(s) != s
 
 
-def classify(case, fl):
-    """mechanism key for ONE failure of one draw, or None"""
-    where, f = _field_of(case, fl)
+def _same(a, b):
+    try:
+        r = a == b
+        return bool(r)
+    except Exception:                   # noqa: BLE001
+        return False
+
+
+def _pyval(v, cls):
+    """failure-case value -> python value comparable with check arguments"""
+    import numpy as np
+    import pandas as pd
+    if cls == "int" and isinstance(v, (float, np.floating)) and float(v).is_integer():
+        return int(v)
+    if isinstance(v, np.generic):
+        return v.item()
+    if cls == "td" and not isinstance(v, pd.Timedelta):
+        try:
+            return pd.Timedelta(v)
+        except Exception:               # noqa: BLE001
+            return v
+    return v
+
+
+HAS_STRATEGY = {"eq", "ne", "gt", "ge", "lt", "le", "in_range", "isin", "notin",
+                "str_matches", "str_contains", "str_startswith", "str_endswith",
+                "str_length", "c_strat"}
+ROW_STRATEGY_DF_CHECKS = HAS_STRATEGY | {"c_ew"}
+
+
+def classify(case, fl, d):
+    """mechanism key for ONE failure of one rejected draw, or None (unknown)"""
+    import pandas as pd
+    where, f, pos = locate(case, fl)
     reason = fl["reason"]
+    kind = case["kind"]
+
+    # SeriesSchema.strategy never looks at schema.index
+    if kind == "series" and case.get("index") and fl["schema_type"] in ("Index", "MultiIndex"):
+        if isinstance(d, pd.Series) and isinstance(d.index, pd.RangeIndex):
+            return "series_strategy-ignores-index-component"
+        return None
+    if f is None:
+        if (where == "frame" and reason == "WRONG_DATATYPE" and case.get("df_dtype")):
+            col = fl.get("column")
+            ff = next((x for x in case["fields"] if x["name"] == col), None)
+            if ff is not None:
+                return _dtype_rule(case, "column", ff, None, dict(fl, schema_name=col), d)
+        return None
+    cls = f["cls"]
+    data = field_data(case, where, f, pos, fl, d)
+    chain = f["checks"]
+    in_index = where in ("index", "level") or kind == "index"
+    via_numpy_column = (where in ("column", "index", "level") or kind in ("index", "column")
+                        ) and not (kind == "column")   # Column.strategy uses series_strategy
+
+    if reason == "WRONG_DATATYPE":
+        return _dtype_rule(case, where, f, pos, fl, d)
+
+    if reason == "SERIES_CONTAINS_DUPLICATES":
+        if (f["unique"] and f["nullable"] and data is not None
+                and int(data.isna().sum()) >= 2 and data.dropna().is_unique):
+            return "null-mask-after-unique-emits-duplicate-nulls"
+        return None
+
+    if reason != "DATAFRAME_CHECK" or fl["check_index"] is None:
+        return None
+    i = fl["check_index"]
+    if not (0 <= i < len(chain)):
+        return None
+    chk = chain[i]
+    k, a = chk["k"], {n: G.dec(x) for n, x in chk["a"].items()}
+    vals = [_pyval(v, cls) for v in (fl["values"] or [])]
+    if not vals:
+        return None
+
+    # frame-level checks switch hypothesis to rows=...; column element
+    # strategies (hence column-level checks) are then dropped
+    if (kind == "frame" and where == "column" and
+            any(c["k"] in ROW_STRATEGY_DF_CHECKS for c in case.get("df_checks") or [])):
+        return "dataframe_strategy-row-strategy-drops-column-checks"
+
+    # vectorised custom checks without a strategy: no fallback filter for
+    # Index / MultiIndex strategies
+    if k in ("c_vec", "c_agg") and in_index:
+        return "index_strategy-no-fallback-for-vectorised-check"
+
+    # a later eq() throws away everything before it
+    for j in range(i + 1, len(chain)):
+        if chain[j]["k"] == "eq":
+            ev = G.dec(chain[j]["a"]["value"])
+            if all(_same(v, ev) or _trunc_equal(v, ev, cls) for v in vals):
+                return "eq_strategy-replaces-preceding-chain"
+
+    # literal interpolated into a regular expression
+    if k in ("str_startswith", "str_endswith") and _is_special(a["string"]):
+        pat = rf"\A(?:{a['string']})" if k == "str_startswith" else rf"(?:{a['string']})\Z"
+        try:
+            if all(isinstance(v, str) and re.search(pat, v) for v in vals):
+                return f"{k}_strategy-literal-not-escaped"
+        except re.error:
+            return None
+        return None
+
+    effective_base = all(c["k"] not in HAS_STRATEGY and c["k"] != "c_ew" for c in chain[:i])
+    # exclusive bounds are only passed on to float strategies
+    if k == "in_range" and cls != "float" and effective_base:
+        excluded = ([a["min_value"]] if not a["include_min"] else []) + \
+                   ([a["max_value"]] if not a["include_max"] else [])
+        if excluded and all(any(_same(v, e) or _trunc_equal(v, e, cls) for e in excluded) for v in vals):
+            return "in_range_strategy-exclusive-bounds-ignored-for-non-float"
+
+    if cls == "dt" and G.tz_of(f["dtype"]) not in (None, "UTC") and via_numpy_column:
+        # naive UTC values are tz_localize()d: every value is off by the offset
+        try:
+            fixed = [v.tz_localize(None).tz_localize("UTC").tz_convert(v.tz) for v in vals]
+            if all(G.holds(chk, x) or _trunc_ok(chk, x) for x in fixed):
+                return "convert_dtype-tz_localize-shifts-non-UTC-datetimes"
+        except Exception:               # noqa: BLE001
+            pass
+
+    if cls in ("dt", "td"):
+        if all(_trunc_ok(chk, v) for v in vals):
+            return "time-values-truncated-to-microseconds"
+    return None
+
+
+def _args_of(chk):
+    out = []
+    for x in chk["a"].values():
+        x = G.dec(x)
+        out.extend(x if isinstance(x, list) else [x])
+    return out
+
+
+def _trunc_equal(v, e, cls):
+    """v is e with the sub-microsecond part cut off"""
+    if cls not in ("dt", "td"):
+        return False
+    try:
+        return v != e and v == e.floor("us")
+    except Exception:                   # noqa: BLE001
+        return False
+
+
+def _trunc_ok(chk, v):
+    """the failing time value lost its nanoseconds: it has none, and some
+    value within the same microsecond satisfies the check"""
+    import pandas as pd
+    try:
+        ns = v.value % 1000
+        if ns != 0:
+            return False
+        for a in _args_of(chk):
+            if hasattr(a, "floor") and a.floor("us") == v and a != v:
+                return True
+        for k in (1, 500, 999):
+            if G.holds(chk, v + pd.Timedelta(k, unit="ns")):
+                return True
+    except Exception:                   # noqa: BLE001
+        return False
+    return False
+
+
+NUMPY_NO_NULL = {"int", "bool"}
+
+
+def _dtype_rule(case, where, f, pos, fl, d):
+    data = field_data(case, where, f, pos, fl, d)
+    got = str((fl["values"] or [None])[0])
+    numpy_dtype = f["dtype"][0].islower()
+    if (f["nullable"] and f["cls"] in NUMPY_NO_NULL and numpy_dtype and data is not None
+            and int(data.isna().sum()) >= 1 and got in ("float64", "object")):
+        return "null-mask-upcasts-numpy-int-or-bool"
+    if (f["dtype"] == "string" and got == "object" and
+            (where == "level")):
+        return "multiindex_strategy-string-level-cast-back-to-object"
     return None
 
 
@@ -254,8 +498,9 @@ def count_case_classes(run, case, prefix):
             if c["k"].startswith("str_") and any(
                     _is_special(v) for v in a.values()):
                 run.count(f"{prefix}regex_special_in_string_arg:{c['k']}")
-        for a, b in zip(f["checks"], f["checks"][1:]):
-            run.extra.setdefault("_pairs", set()).add(f"{a['k']}>{b['k']}")
+        if prefix == "judged:":
+            for a, b in zip(f["checks"], f["checks"][1:]):
+                run.count(f"order:{a['k']}>{b['k']}")
         if f.get("regex"):
             run.count(f"{prefix}regex_column")
     if case.get("df_checks"):
@@ -269,7 +514,7 @@ def count_case_classes(run, case, prefix):
         run.count(f"{prefix}df_dtype")
 
 
-def one_case(run, case, hseed, n, verbose=False):
+def one_case(run, case, hseed, n, verbose=False, limit=None):
     import pandas as pd
     key = canon_hash([{k: v for k, v in case.items()}, "C13"])
     fam = case["family"]
@@ -281,10 +526,14 @@ def one_case(run, case, hseed, n, verbose=False):
         return
     with warnings.catch_warnings():
         warnings.simplefilter("ignore")
-        if case["mode"] == "example":
-            draws, exc = draw_example(schema, case, hseed, max(1, n // 4))
-        else:
-            draws, exc = draw_strategy(schema, case, hseed, n)
+        try:
+            with time_limit(limit):
+                if case["mode"] == "example":
+                    draws, exc = draw_example(schema, case, hseed, max(1, n // 4))
+                else:
+                    draws, exc = draw_strategy(schema, case, hseed, n)
+        except CaseTimeLimit as e:      # fired between the inner handlers
+            draws, exc = [], e
     brief = {"case": case, "hseed": hseed, "n": n}
     count_case_classes(run, case, "gen:")
     sample = {"family": fam, "kind": case["kind"], "size": case["size"],
@@ -314,7 +563,7 @@ def one_case(run, case, hseed, n, verbose=False):
                     f"contradictory schema accepted a draw (generator bug): {json.dumps(case, default=repr)[:300]}")
                 return
             run.count("unsat:data_emitted")
-            mechs = sorted({classify(case, fl) or "" for fl in (info if verdict == "rejected" else [])})
+            mechs = sorted({classify(case, fl, d) or "" for fl in (info if verdict == "rejected" else [])})
             mech = mechs[0] if len(mechs) == 1 and mechs[0] else None
             run.violation("unsatisfiable-schema-emitted-data",
                           dict(brief, draw=show(d), verdict=verdict,
@@ -329,9 +578,7 @@ def one_case(run, case, hseed, n, verbose=False):
     if exc is not None:
         run.count("undecided:strategy_raised")
         run.count(f"undecided:strategy_raised:{type(exc).__name__}")
-        run.extra.setdefault("_raised", {}).setdefault(
-            f"{type(exc).__name__}: {str(exc)[:90]}", json.dumps(
-                [[f["dtype"], chain_sig(f)] for f in all_fields(case)] + [case["kind"], case["size"]]))
+        run.count("undecided:raised_msg:" + _norm_msg(exc))
     run.case(key, bool(draws), sample=sample if run.evaluations % 9 == 2 else None)
     if not draws:
         run.count("undecided:no_draw")
@@ -363,7 +610,7 @@ def one_case(run, case, hseed, n, verbose=False):
         run.count("draw_rejected")
         per = {}
         for fl in info:
-            per.setdefault(classify(case, fl), []).append(fl)
+            per.setdefault(classify(case, fl, d), []).append(fl)
         for mech, fls in per.items():
             run.violation("draw-rejected-by-own-schema",
                           dict(brief, draw=show(d), failures=fls), mech)
@@ -378,18 +625,23 @@ def one_case(run, case, hseed, n, verbose=False):
 # --------------------------------------------------------------------------
 def run(run, ctx):
     n_cases, n_draws = N_CASES[ctx.tier], N_DRAWS[ctx.tier]
+    prewarm()
     for i in ctx.cases(n_cases):
         rng = ctx.rng(PID, i)
         case = G.gen_case(rng)
-        one_case(run, case, rng.getrandbits(32), n_draws)
+        one_case(run, case, rng.getrandbits(32), n_draws, limit=TIME_LIMIT[ctx.tier])
     _pack(run)
 
 
 def _pack(run):
-    pairs = run.extra.pop("_pairs", set())
-    run.extra["ordered_check_pairs_seen"] = sorted(pairs)
-    raised = run.extra.pop("_raised", {})
-    run.extra["strategy_exceptions_seen(not decided)"] = dict(sorted(raised.items())[:60])
+    pass
+
+
+def _norm_msg(exc):
+    m = str(exc).split("\n")[0][:70]
+    m = re.sub(r"'[^']*'|\"[^\"]*\"", "S", m)
+    m = re.sub(r"-?\d[\d.e+-]*", "N", m)
+    return f"{type(exc).__name__}: {m}"
 
 
 def finalize(run, ctx):
